@@ -1,18 +1,33 @@
 from engine import Query
+import os
 META = {
- 'functions': ['StringUtils::EscapeHTMLSpecialChars<FixedStream<Char,CAP>,Char> (StringUtils.hpp:205-290)',
+ 'functions': ['StringUtils::EscapeHTMLSpecialChars<Stream,Char> (StringUtils.hpp:205-290)',
                'StringUtils::IsEqual (StringUtils.hpp:151-162)', 'HTMLSpecialChars_T<Char,1|2|4> tables (StringUtils.hpp:292-353)'],
  'bounds': '',
  'outside': '',
  'assumptions': [],
 }
+WIDTHS = ('char', 'char16_t', 'char32_t')
+H = 'C03_escape_html.cpp'
 def queries(tier):
-    N = 6 if tier == 'quick' else 8
+    quick = tier == 'quick'
+    N = 6 if quick else 8          # observer harnesses
+    NF = 4 if quick else 5         # FixedStream harnesses with a symbolic output index / reference decoders
+    NI = 2 if quick else 3         # direct escape(escape(s)) (second input is 6*L units)
+    be = os.environ.get('C03_BACKEND', 'sat')
     qs = []
-    for ch in ('char', 'char16_t', 'char32_t'):
+    for ch in WIDTHS:
         for L in range(0, N + 1):
-            b = {'IsEqual': 6, 'C03_escape_html.cpp:Write': 6 * L + 1, 'Write': max(L + 1, 7), '.*(esc2|CmpStream).*': 6 * L + 1,
-                 'EscapeHTMLSpecialChars': L + 1, 'vf_buf.*': L + 1, 'dec_in': L + 1, 'dec_out': 6 * L + 1}
-            for e in ('h_safe', 'h_decode', 'h_idem'):
-                qs.append(Query('%s/%s/L%d' % (e[2:], ch, L), 'C03_escape_html.cpp', e, {'L': L, 'CHAR': ch}, bounds=b, timeout=300, mem_gb=8, backend=__import__('os').environ.get('C03_BACKEND', 'sat')))
+            b = {'IsEqual': 6, 'Write': max(L + 1, 7), 'EscapeHTMLSpecialChars': L + 1, 'vf_buf.*': L + 1, 'dec_in': L + 1, 'dec_out': 6 * L + 1}
+            for e in ('h_lang', 'h_dec', 'h_len', 'h_fix'):
+                qs.append(Query('%s/%s/L%d' % (e[2:], ch, L), H, e, {'L': L, 'CHAR': ch}, bounds=b, timeout=300, mem_gb=8, backend=be))
+            if L <= NF:
+                for e in ('h_safe', 'h_decode'):
+                    qs.append(Query('%s/%s/L%d' % (e[2:], ch, L), H, e, {'L': L, 'CHAR': ch}, bounds=b, timeout=600, mem_gb=8, backend=be))
+            if L <= NI:
+                # first escaper: FixedStream::Write (fixed_stream.hpp) and its own main loop; second escaper (instantiated on the
+                # harness-local CmpStream, reached through esc2): slices and main loop run over the 6*L units of the first output
+                bi = {'IsEqual': 6, 'fixed_stream.hpp:Write': max(L + 1, 7), 'C03_escape_html.cpp:Write': max(6 * L + 1, 7),
+                      '.*(esc2|CmpStream).*': 6 * L + 1, 'EscapeHTMLSpecialChars': L + 1, 'vf_buf.*': L + 1}
+                qs.append(Query('idem/%s/L%d' % (ch, L), H, 'h_idem', {'L': L, 'CHAR': ch}, bounds=bi, timeout=600, mem_gb=8, backend=be))
     return qs
